@@ -26,7 +26,7 @@ func (p *printer) Consume(posit, digit int) {
 		if p.digitsPerRow > 0 && p.rowStarter.CountOn() {
 			p.skipRowsFor(posit)
 		}
-		for p.index < posit {
+		for p.index < posit && p.CanConsume() {
 			p.rawPrinter.Consume(p.missingDigit)
 		}
 	}
